@@ -318,3 +318,37 @@ Proof.
   apply IH. rewrite <- app_assoc. now apply basis_ok_segmented.
 Qed.
 End OverlapSeg.
+
+(* ------------------------------------------------------------------ *)
+(* the hypotheses are satisfiable: the mixed basis of Proofs/AssembledExamplesP.v (generalized spherical d shell
+   with two segments, Cartesian p shell, contracted spherical s shell) over Qc, any oracle closures *)
+(* ------------------------------------------------------------------ *)
+From Coq Require Import QArith Qcanon.
+From GB Require Import Proofs.CoreExamplesP Proofs.AssembledExamplesP.
+
+Section Ex.
+Variables (opi : Qc) (osqrt oexp oln : Qc -> Qc) (oboys : nat -> Qc -> Qc).
+Notation KQ' := (KQ opi osqrt oexp oln oboys).
+
+Lemma ex_basis_ok : basis_ok KQ' ex_mixed.
+Proof.
+  exact (conj ex_mixed_seg (conj ex_mixed_wf (ex_mixed_exps opi osqrt oexp oln oboys))).
+Qed.
+
+Lemma ex_segmented_shape :
+  length (segments KQ' ex_sa_sph) = 2%nat /\
+  length (segmented_basis KQ' ex_mixed) = 4%nat /\
+  ototal KQ' (segmented_basis KQ' ex_mixed) = 14%nat /\ ototal KQ' ex_mixed = 14%nat.
+Proof. vm_compute. repeat split. Qed.
+
+Example ex_overlap_segmented T :
+  overlap_integral KQ' (segments KQ' ex_sa_sph ++ [ex_sb; ex_sc_sph]) T = overlap_integral KQ' ex_mixed T
+  /\ overlap_integral KQ' (segmented_basis KQ' ex_mixed) T = overlap_integral KQ' ex_mixed T.
+Proof.
+  split.
+  - exact (overlap_one_shell_segmented KQ' (KQ_field _ _ _ _ _) (KQ_apx _ _ _ _ _) (KQ_two _ _ _ _ _)
+             [] [ex_sb; ex_sc_sph] ex_sa_sph T ex_basis_ok).
+  - exact (overlap_segmented_basis KQ' (KQ_field _ _ _ _ _) (KQ_apx _ _ _ _ _) (KQ_two _ _ _ _ _)
+             ex_mixed T ex_basis_ok).
+Qed.
+End Ex.
